@@ -175,6 +175,25 @@ def _gcd_inv(e):
     )
 
 
+def _gcd_hints():
+    def parts(pre, post, calls):
+        return calls[MODK][0].Q, pre.g, pre.old.self.value, pre.old.other.value, pre.r.a.value, pre.r.b.value, post.r.b.value
+
+    def h0(pre, post, calls):
+        q, g, Av, Bv, a, b, r = parts(pre, post, calls)
+        return r == xor(a, pmul(q, b))
+
+    def h1(pre, post, calls):
+        q, g, Av, Bv, a, b, r = parts(pre, post, calls)
+        return pmul(q, b) == xor(pmul(q, pmul(g.u, Av)), pmul(q, pmul(g.v, Bv)))
+
+    def h2(pre, post, calls):
+        q, g, Av, Bv, a, b, r = parts(pre, post, calls)
+        return pmul(q, b) == xor(pmul(pmul(q, g.u), Av), pmul(pmul(q, g.v), Bv))
+
+    return (h0, h1, h2)
+
+
 _one, _zero = (lambda e: 1), (lambda e: 0)
 register(Contract(
     key=A + "BinaryPolynomial.gcd", types={"self": BP, "other": BP}, returns=BP,
@@ -194,6 +213,7 @@ register(Contract(
         inv=_gcd_inv,
         variant=lambda e: deg(e.r.b.value),
         update=_gcd_update,
+        hints=_gcd_hints(),
     )},
     theory=("core",), small=_pairs(6), small_desc="all operand pairs < 2^6",
 ))
@@ -273,3 +293,447 @@ _e1("C18.poly_gcd", A + "BinaryPolynomial.gcd")
 _e1("C18.poly_lcm", A + "BinaryPolynomial.lcm")
 _e1("C18.poly_eq", A + "BinaryPolynomial.__eq__")
 _e1("C18.poly_hash", A + "BinaryPolynomial.__hash__")
+
+
+# ================================================================================ soundness guards of the theory
+def _axiom_cfgs(tier):
+    return sorted({g for _n, g, _k, _f in T.AXIOMS}) + ["consistency"]
+
+
+@obligation("C18.theory_axioms", function=A + "BinaryPolynomial.__mul__", configs=_axiom_cfgs, kind="custom", engine="E1")
+def theory_axioms(spec, cfg, tier, seed):
+    """every axiom of GF2POLY/GF2QUOT evaluated on an exhaustive small domain with vk.ground; z3 must not derive false"""
+    out = []
+    t0 = time.time()
+    if cfg == "consistency":
+        r = T.consistency_probe(5000)
+        out.append(ObResult(prop=spec.prop, ob=f"{spec.id}/no_false_from_axioms", config=cfg, function="vk/e1/theory.py", engine="E1", backend="z3", kind="crosscheck",
+                            verdict="error" if r == "unsat" else "discharged", wall_s=round(time.time() - t0, 3), detail=f"z3 on the axioms alone, 5 s: {r} (must not be unsat)"))
+        return out
+    for name, ok, n, detail in T.instance_tests(cfg):
+        out.append(ObResult(prop=spec.prop, ob=f"{spec.id}/{name}", config=cfg, function="vk/e1/theory.py", engine="E1", backend="ground", kind="crosscheck",
+                            verdict="discharged" if ok else "error", paths=n, wall_s=round(time.time() - t0, 3), detail=f"{n} instances (all bitmasks < 2^8; 2^5 for 4-variable axioms) {detail}"))
+    return out
+
+
+# ================================================================================ ground: per field
+def _alg():
+    from vk.e1.source import load_module
+
+    return load_module(ALG)
+
+
+def _prime_factors(n):
+    out, p = [], 2
+    while p * p <= n:
+        if n % p == 0:
+            out.append(p)
+            while n % p == 0:
+                n //= p
+        p += 1
+    if n > 1:
+        out.append(n)
+    return out
+
+
+def _ipow(a, e, M):
+    """independent square-and-multiply in GF(2)[x]/(M)"""
+    r = Gd.pmod(1, M)
+    a = Gd.pmod(a, M)
+    while e:
+        if e & 1:
+            r = Gd.pmod(Gd.pmul(r, a), M)
+        a = Gd.pmod(Gd.pmul(a, a), M)
+        e >>= 1
+    return r
+
+
+def _m_cfgs(lo, q, t):
+    return lambda tier: [f"m={m}" for m in range(lo, (q if tier == "quick" else t) + 1)]
+
+
+def _m(cfg):
+    return int(str(cfg).split("=")[1])
+
+
+@obligation("C18.field_ground", function=A + "FiniteBifield.__init__; " + A + "FiniteBifield.primitive_element; " + A + "FiniteBifield.__call__", configs=_m_cfgs(1, 16, 16), kind="custom", engine="ground")
+def field_ground(spec, cfg, tier, seed):
+    """closed obligations on what the real constructor tabulates, evaluated with the REAL kaira operations and, side by
+    side, with the independent bitmask kernel vk.ground"""
+    mod = _alg()
+    m = _m(cfg)
+    out = []
+
+    def G(name, ok, detail, witness=None):
+        out.append(ObResult(prop=spec.prop, ob=f"{spec.id}/{name}", config=str(cfg), function=spec.function, engine="ground", backend="ground", kind="ground",
+                            verdict="discharged" if ok else "refuted", replay_confirmed=None if ok else True, witness=None if ok else (witness or {"m": m}), detail=detail, wall_s=round(time.time() - t0, 3)))
+
+    t0 = time.time()
+    F = mod.FiniteBifield(m)
+    M = F.modulus.value
+    G("size", F.size == 2**m and F.m == m, f"size={F.size}")
+    G("modulus_degree", F.modulus.degree == m and Gd.pdeg(M) == m, f"modulus {bin(M)} has degree {F.modulus.degree}")
+    # irreducibility: trial division by every polynomial of degree 1..m//2 (real % and independent pmod)
+    bad = None
+    n = 0
+    for d in range(2, 1 << (m // 2 + 1)):
+        n += 1
+        r_real = (F.modulus % mod.BinaryPolynomial(d)).value
+        r_ind = Gd.pmod(M, d)
+        if r_real == 0 or r_ind == 0 or r_real != r_ind:
+            bad = (d, r_real, r_ind)
+            break
+    G("modulus_irreducible", bad is None, f"trial division by all {n} polynomials of degree 1..{m // 2}: " + ("no divisor" if bad is None else f"divisor/mismatch {bad}"))
+    # multiplicative order of the designated primitive element
+    x = F.primitive_element()
+    N = 2**m - 1
+    one_real = (x**N).value
+    one_ind = _ipow(x.value, N, M)
+    G("primitive_order_divides", one_real == 1 and one_ind == 1, f"x={x.value}: x^(2^m-1) = {one_real} (kaira) / {one_ind} (independent)", {"m": m, "x": x.value})
+    fails = []
+    for q in _prime_factors(N):
+        v_real = (x ** (N // q)).value
+        v_ind = _ipow(x.value, N // q, M)
+        if v_real == 1 or v_ind == 1 or v_real != v_ind:
+            fails.append((q, v_real, v_ind))
+    G("primitive_order_exact", not fails and x.value != 0, f"x^((2^m-1)/q) != 1 for every prime q in {_prime_factors(N)}" + (f"; fails {fails}" if fails else "") + ("; x is the zero element" if x.value == 0 else ""), {"m": m, "x": x.value})
+    # Fermat (L-order instance used by the contract of inverse): every non-zero element satisfies a^(2^m-1) = 1
+    bad = next((a for a in range(1, 2**m) if _ipow(a, N, M) != 1), None)
+    G("fermat_all_elements", bad is None, f"a^(2^m-1) = 1 for all {2**m - 1} non-zero residues (independent kernel)" + ("" if bad is None else f"; fails at {bad}"))
+    return out
+
+
+# ================================================================================ bounded cross-checks (never counted as proved)
+def _B(spec, cfg, name, n, fail, t0, what):
+    return ObResult(prop=spec.prop, ob=f"{spec.id}/{name}", config=str(cfg), function=spec.function, engine="standin", backend="native", kind="bounded",
+                    verdict="discharged" if fail is None else "refuted", paths=n, witness=fail, replay_confirmed=None if fail is None else True,
+                    detail=f"bounded: {n} native evaluations; {what}", wall_s=round(time.time() - t0, 3))
+
+
+@obligation("C18.bounded_poly", function=A + "BinaryPolynomial.__mul__; " + A + "BinaryPolynomial.__mod__; " + A + "BinaryPolynomial.div; " + A + "BinaryPolynomial.gcd; " + A + "BinaryPolynomial.lcm; " + A + "BinaryPolynomial.derivative; " + A + "BinaryPolynomial.to_coefficient_list; " + A + "BinaryPolynomial.evaluate",
+            configs=lambda tier: [f"a in [{32 * i},{32 * i + 32})" for i in range(8)], kind="custom", engine="standin")
+def bounded_poly(spec, cfg, tier, seed):
+    """Euclidean-ring laws on all pairs of polynomials below degree 8, real kaira operations against vk.ground"""
+    mod = _alg()
+    P = mod.BinaryPolynomial
+    lo = int(str(cfg).split("[")[1].split(",")[0])
+    t0 = time.time()
+    fails = {}
+    counts = {}
+
+    def chk(name, ok, w):
+        counts[name] = counts.get(name, 0) + 1
+        if not ok and name not in fails:
+            fails[name] = w
+
+    for a in range(lo, lo + 32):
+        pa = P(a)
+        chk("degree", pa.degree == Gd.pdeg(a), {"a": a})
+        cl = pa.to_coefficient_list()
+        chk("coefficient_list", sum(c << i for i, c in enumerate(cl)) == a and all(c in (0, 1) for c in cl) and (len(cl) == max(a.bit_length(), 1)), {"a": a})
+        dv = 0
+        for i in range(1, a.bit_length(), 2):
+            if a >> i & 1:
+                dv |= 1 << (i - 1)
+        chk("derivative", pa.derivative().value == dv, {"a": a})
+        for b in range(256):
+            pb = P(b)
+            w = {"a": a, "b": b}
+            chk("mul", (pa * pb).value == Gd.pmul(a, b), w)
+            chk("eq_hash", ((pa == pb) == (a == b)) and (a != b or hash(pa) == hash(pb)), w)
+            if b:
+                q, r = Gd.pdivmod(a, b)
+                rr, qq = (pa % pb).value, pa.div(pb).value
+                chk("mod", rr == r, w)
+                chk("div", qq == q, w)
+                chk("euclid", a == Gd.pmul(qq, b) ^ rr and Gd.pdeg(rr) < Gd.pdeg(b), w)
+            g = pa.gcd(pb).value
+            g0, s, t = _xgcd(a, b)
+            chk("gcd", g == g0 and (g == 0 or (Gd.pmod(a, g) == 0 and Gd.pmod(b, g) == 0)) and g == Gd.pmul(s, a) ^ Gd.pmul(t, b), w)
+            l = pa.lcm(pb).value
+            chk("lcm_times_gcd", Gd.pmul(l, g) == Gd.pmul(a, b), w)
+            # integer-point evaluation: xor of integer powers, as the code defines it for ints
+            if b < 4:
+                ev = 0
+                for i in range(a.bit_length()):
+                    if a >> i & 1:
+                        ev ^= b**i
+                chk("evaluate_int", pa.evaluate(b) == ev, w)
+    return [_B(spec, cfg, k, n, fails.get(k), t0, "all pairs of polynomials below degree 8 in this slice vs vk.ground") for k, n in counts.items()]
+
+
+def _field_cfgs(tier):
+    return [f"m={m}" for m in range(1, 6 if tier == "quick" else 9)]
+
+
+@obligation("C18.bounded_field_axioms", function=A + "FiniteBifieldElement.__add__; " + A + "FiniteBifieldElement.__mul__; " + A + "FiniteBifieldElement.inverse; " + A + "FiniteBifield.__call__", configs=_field_cfgs, kind="custom", engine="standin")
+def bounded_field_axioms(spec, cfg, tier, seed):
+    """field axioms on all pairs (m <= 5; thorough m <= 8) and all triples (m <= 4; thorough m <= 5), real operations against the independent kernel"""
+    mod = _alg()
+    m = _m(cfg)
+    F = mod.FiniteBifield(m)
+    M = F.modulus.value
+    t0 = time.time()
+    fails, counts = {}, {}
+
+    def chk(name, ok, w):
+        counts[name] = counts.get(name, 0) + 1
+        if not ok and name not in fails:
+            fails[name] = dict(w, m=m)
+
+    E = [F(v) for v in range(2**m)]
+    im = lambda a, b: Gd.pmod(Gd.pmul(a, b), M)
+    chk("call_reduces", all(F(v + k * 2**m).value == v for v in range(2**m) for k in (0, 1, 3)), {})
+    for a in E:
+        w = {"a": a.value}
+        chk("add_zero_mul_one", (a + F(0)).value == a.value and (a * F(1)).value == a.value and (a + a).value == 0, w)
+        if a.value:
+            inv = a.inverse()
+            chk("inverse", (a * inv).value == 1 and im(a.value, inv.value) == 1, w)
+        for b in E:
+            w = {"a": a.value, "b": b.value}
+            chk("add_is_xor", (a + b).value == a.value ^ b.value, w)
+            chk("mul_vs_independent", (a * b).value == im(a.value, b.value), w)
+            chk("commutative", (a * b).value == (b * a).value and (a + b).value == (b + a).value, w)
+            chk("no_zero_divisors", (a * b).value != 0 or a.value == 0 or b.value == 0, w)
+    if m <= (4 if tier == "quick" else 5):
+        for a in E:
+            for b in E:
+                ab, apb = a * b, a + b
+                for c in E:
+                    w = {"a": a.value, "b": b.value, "c": c.value}
+                    chk("mul_associative", (ab * c).value == (a * (b * c)).value, w)
+                    chk("add_associative", (apb + c).value == (a + (b + c)).value, w)
+                    chk("distributive", (a * (b + c)).value == (ab + a * c).value, w)
+    return [_B(spec, cfg, k, n, fails.get(k), t0, "all pairs / triples of field elements vs independent bitmask kernel") for k, n in counts.items()]
+
+
+def _defs_cfgs(tier):
+    return [f"m={m}" for m in range(1, 7 if tier == "quick" else 9)]
+
+
+def _coset_minpoly(a, m, M):
+    """product over the conjugacy class of (x - c), expanded with the independent kernel; coefficients must land in {0,1}"""
+    orbit, c = [], a
+    while c not in orbit:
+        orbit.append(c)
+        c = Gd.pmod(Gd.pmul(c, c), M)
+    poly = [1]  # coefficients in GF(2^m), lowest first
+    for c in orbit:
+        nxt = [0] * (len(poly) + 1)
+        for i, co in enumerate(poly):
+            nxt[i + 1] ^= co
+            nxt[i] ^= Gd.pmod(Gd.pmul(co, c), M)
+        poly = nxt
+    if not all(co in (0, 1) for co in poly):
+        return None, orbit
+    return sum(co << i for i, co in enumerate(poly)), orbit
+
+
+def _irreducible(p):
+    d = Gd.pdeg(p)
+    return d >= 1 and all(Gd.pmod(p, q) != 0 for q in range(2, 1 << (d // 2 + 1)))
+
+
+@obligation("C18.bounded_field_defs", function=A + "FiniteBifieldElement.__pow__; " + A + "FiniteBifieldElement.inverse; " + A + "FiniteBifieldElement.trace; " + A + "FiniteBifieldElement.conjugates; " + A + "FiniteBifieldElement.minimal_polynomial; " + A + "BinaryPolynomial.evaluate",
+            configs=_defs_cfgs, kind="custom", engine="standin")
+def bounded_field_defs(spec, cfg, tier, seed):
+    """power / trace / conjugates / minimal polynomial of EVERY element (m <= 6; thorough m <= 8) against their definitions"""
+    mod = _alg()
+    m = _m(cfg)
+    F = mod.FiniteBifield(m)
+    M = F.modulus.value
+    t0 = time.time()
+    fails, counts = {}, {}
+
+    def chk(name, ok, w):
+        counts[name] = counts.get(name, 0) + 1
+        if not ok and name not in fails:
+            fails[name] = dict(w, m=m)
+
+    for v in range(2**m):
+        a = mod.FiniteBifieldElement(F, v)  # fresh object: no memoised minimal polynomial
+        w = {"a": v}
+        acc = Gd.pmod(1, M)
+        for e in range(0, min(2**m + 2, 70)):
+            chk("power", (a**e).value == acc, dict(w, e=e))
+            acc = Gd.pmod(Gd.pmul(acc, v), M)
+        for e in (2**m - 2, 2**m - 1, 2**m, 3 * 2**m + 1):
+            chk("power_large", (a**e).value == _ipow(v, e, M), dict(w, e=e))
+        tr, c = 0, v
+        for _ in range(m):
+            tr ^= c
+            c = Gd.pmod(Gd.pmul(c, c), M)
+        chk("trace", tr in (0, 1) and a.trace() == tr, w)
+        mp, orbit = _coset_minpoly(v, m, M)
+        chk("conjugates", [c_.value for c_ in a.conjugates()] == orbit, w)
+        p = a.minimal_polynomial()
+        ok = mp is not None and p.value == mp and _irreducible(p.value) and Gd.pdeg(p.value) == len(orbit)
+        # vanishes at a (independent Horner evaluation) and through kaira's own evaluate
+        hv = 0
+        for i in reversed(range(p.value.bit_length())):
+            hv = Gd.pmod(Gd.pmul(hv, v), M) ^ (p.value >> i & 1)
+        chk("minimal_polynomial", ok and hv == 0 and p.evaluate(a).value == 0, w)
+        # least degree: no non-zero polynomial of smaller degree vanishes at a (independent evaluation, exhaustive)
+        if m <= 6:
+            small = False
+            for q in range(1, 1 << Gd.pdeg(p.value)):
+                hv = 0
+                for i in reversed(range(q.bit_length())):
+                    hv = Gd.pmod(Gd.pmul(hv, v), M) ^ (q >> i & 1)
+                if hv == 0:
+                    small = True
+                    break
+            chk("minimal_polynomial_least_degree", not small, w)
+    return [_B(spec, cfg, k, n, fails.get(k), t0, "every element of the field vs definitions computed with vk.ground") for k, n in counts.items()]
+
+
+# ================================================================================ GF(2^m): contracts of the element operations
+def _Mv(a):
+    """the (concrete) modulus bitmask of the field of the receiver"""
+    f = a.self if a.self.cls == FF else a.self.field
+    return f.modulus.value
+
+
+def _size(a):
+    f = a.self if a.self.cls == FF else a.self.field
+    return f.size
+
+
+def _inrange(v, size):
+    return AND(v >= 0, v < size)
+
+
+def _field_extra(fermat=False, fpow_add=()):
+    def extra(cfg, mod):
+        m = _m(cfg)
+        F = mod.FiniteBifield(m)
+        M = F.modulus.value
+        out = [
+            (f"deg_bound({m}) [schema instance]", T.schema_instance("schema.deg_bound", {1: m})),
+            (f"deg({M}) = {T.deg(M)} [ground evaluation]", T._F["deg"](z3.IntVal(M)) == T.deg(M)),
+        ]
+        if fermat:
+            N = 2**m - 1
+            holds = all(_ipow(a, N, M) == 1 for a in range(1, 2**m))
+            if holds:
+                av = z3.Int("fermat!a")
+                out.append((f"L-order instance: a^(2^{m}-1) = 1 for all {N} non-zero residues mod {M} [checked exhaustively with vk.ground on this run; also obligation C18.field_ground/fermat_all_elements]",
+                            z3.ForAll([av], z3.Implies(z3.And(av > 0, av < 2**m), T._F["fpow"](z3.IntVal(M), av, z3.IntVal(N)) == 1))))
+        for (n, k) in fpow_add:
+            out.append((f"fpow_add({n},{k}) [schema instance]", T.schema_instance("schema.fpow_add", {0: M, 2: n, 3: k})))
+        return out
+
+    return extra
+
+
+def _elems(*names, extra_ints=None, cap=6):
+    """all tuples of field elements (values < 2^min(m,cap)) for the named parameters"""
+    def gen(cfg):
+        m = _m(cfg)
+        rng = range(2 ** min(m, cap))
+        ints = extra_ints or {}
+        keys = list(names) + list(ints)
+        for tup in itertools.product(*([rng] * len(names) + [ints[k] for k in ints])):
+            yield dict(zip(keys, tup))
+
+    return gen
+
+
+_fe_cache = {"_element_cache": lambda ex, base, key, st: ex.construct(FE, [base, key], st, 0)}
+
+register(Contract(
+    key=A + "FiniteBifield.__eq__", types={"self": FF, "other": FF}, returns="bool",
+    ensures=lambda a, res, w: {"same_m": res == (a.self.m == a.other.m)}, theory=(),
+    small=lambda cfg: [{"self": None, "other": None}], small_desc="the field of this configuration",
+))
+
+register(Contract(
+    key=A + "FiniteBifield.__call__", types={"self": FF, "value": "int"}, returns=FE, result_field_of="self",
+    ensures=lambda a, res, w: {"reduced_value": res.value == a.value % a.self.size, "in_range": _inrange(res.value, a.self.size)},
+    caches=_fe_cache, theory=(),
+    small=lambda cfg: ({"self": None, "value": v} for v in range(-40, 300)), small_desc="all -40 <= value < 300",
+))
+
+register(Contract(
+    key=A + "FiniteBifield.primitive_element", types={"self": FF}, returns=FE, result_field_of="self",
+    ensures=lambda a, res, w: {"is_x": res.value == 2 % a.self.size}, theory=(),
+    small=lambda cfg: [{"self": None}], small_desc="the field of this configuration",
+))
+
+register(Contract(
+    key=A + "FiniteBifieldElement.__add__", types={"self": FE, "other": FE}, returns=FE,
+    requires=lambda a: AND(_inrange(a.self.value, _size(a)), _inrange(a.other.value, _size(a)), a.self.field.m == a.other.field.m),
+    ensures=lambda a, res, w: {"is_xor": res.value == xor(a.self.value, a.other.value), "in_range": _inrange(res.value, _size(a))},
+    theory=("xor", "deg"), extra=_field_extra(),
+    small=_elems("self", "other"), small_desc="all pairs of elements (values < 2^min(m,6))",
+))
+
+register(Contract(
+    key=A + "FiniteBifieldElement.__mul__", types={"self": FE, "other": FE}, returns=FE,
+    requires=lambda a: AND(_inrange(a.self.value, _size(a)), _inrange(a.other.value, _size(a)), a.self.field.m == a.other.field.m),
+    ensures=lambda a, res, w: {"is_field_product": res.value == fmul(_Mv(a), a.self.value, a.other.value), "in_range": _inrange(res.value, _size(a))},
+    hints={4: (
+        lambda e, res, w: pmod(xor(pmul(e.calls[MODK][0].Q, _Mv(e.old)), e.r.result_poly.value), _Mv(e.old)) == e.r.result_poly.value,
+        lambda e, res, w: pmod(pmul(e.old.self.value, e.old.other.value), _Mv(e.old)) == e.r.result_poly.value,
+        lambda e, res, w: _inrange(e.r.result_poly.value, _size(e.old)),
+        lambda e, res, w: fmul(_Mv(e.old), e.old.self.value, e.old.other.value) == e.r.result_poly.value,
+    )},
+    theory=("xor", "pmul", "deg", "pmod", "fmul"), extra=_field_extra(),
+    small=_elems("self", "other"), small_desc="all pairs of elements (values < 2^min(m,6))",
+))
+
+
+def _pow_inv(e):
+    M, sz = e.old.self.field.modulus.value, e.old.self.field.size
+    return AND(
+        e.r.e >= 0, _inrange(e.r.acc.value, sz), _inrange(e.r.base.value, sz),
+        fmul(M, e.r.acc.value, fpow(M, e.r.base.value, e.r.e)) == fpow(M, e.old.self.value, e.old.exponent),
+    )
+
+
+def _pow_hints():
+    def h0(pre, post, calls):
+        M = pre.old.self.field.modulus.value
+        b, ex = pre.r.base.value, pre.r.e
+        return fpow(M, b, ex) == fmul(M, IF(ex % 2 == 1, b, 1), fpow(M, fmul(M, b, b), ex / 2))
+
+    return (h0,)
+
+
+register(Contract(
+    key=A + "FiniteBifieldElement.__pow__", types={"self": FE, "exponent": "int"}, returns=FE,
+    requires=lambda a: _inrange(a.self.value, _size(a)),
+    raises=(("ValueError", lambda a: a.exponent < 0),),
+    ensures=lambda a, res, w: {"is_power": res.value == fpow(_Mv(a), a.self.value, a.exponent), "in_range": _inrange(res.value, _size(a))},
+    loops={0: Loop(roles={"acc": "result", "base": "base", "e": "exponent"}, inv=_pow_inv, variant=lambda e: e.r.e, hints=_pow_hints())},
+    theory=("xor", "pmul", "deg", "pmod", "fmul", "fpow"), extra=_field_extra(),
+    small=_elems("self", extra_ints={"exponent": range(-1, 20)}, cap=5), small_desc="all elements (values < 2^min(m,5)) x exponents -1..19",
+))
+
+register(Contract(
+    key=A + "FiniteBifieldElement.inverse", types={"self": FE}, returns=FE,
+    requires=lambda a: _inrange(a.self.value, _size(a)),
+    raises=(("ValueError", lambda a: a.self.value == 0),),
+    ensures=lambda a, res, w: {"is_inverse": fmul(_Mv(a), a.self.value, res.value) == 1, "in_range": _inrange(res.value, _size(a))},
+    hints={1: (
+        lambda e, res, w: fpow(_Mv(e.old), e.old.self.value, _size(e.old) - 1) == fmul(_Mv(e.old), fpow(_Mv(e.old), e.old.self.value, _size(e.old) - 2), e.old.self.value),
+        lambda e, res, w: fpow(_Mv(e.old), e.old.self.value, _size(e.old) - 1) == 1,
+        lambda e, res, w: fmul(_Mv(e.old), res.value, e.old.self.value) == 1,
+    )},
+    theory=("xor", "pmul", "deg", "pmod", "fmul", "fpow"), extra=_field_extra(fermat=True),
+    small=_elems("self", cap=10), small_desc="all elements (values < 2^min(m,10))",
+))
+
+
+def _e1_cfgs(tier):
+    return [f"m={m}" for m in range(1, 9 if tier == "quick" else 17)]
+
+
+_e1("C18.field_eq", A + "FiniteBifield.__eq__", _e1_cfgs)
+_e1("C18.field_call", A + "FiniteBifield.__call__", _e1_cfgs)
+_e1("C18.field_primitive_element", A + "FiniteBifield.primitive_element", _e1_cfgs)
+_e1("C18.elem_add", A + "FiniteBifieldElement.__add__", _e1_cfgs)
+_e1("C18.elem_mul", A + "FiniteBifieldElement.__mul__", _e1_cfgs)
+_e1("C18.elem_pow", A + "FiniteBifieldElement.__pow__", _e1_cfgs)
+_e1("C18.elem_inverse", A + "FiniteBifieldElement.inverse", _e1_cfgs)
